@@ -151,9 +151,9 @@ func (app *App) handleAdminMessage(msg []byte) ([]byte, error) {
 			case "list":
 				switch cmd.Which {
 				case "all":
-					reply, err = json.Marshal(app.Websocket.Rules)
+					reply, err = json.Marshal(app.Websocket.GetRules())
 				default:
-					reply, err = json.Marshal(app.Websocket.Rules[cmd.Which])
+					reply, err = json.Marshal(app.Websocket.GetRule(cmd.Which))
 				}
 			default:
 				err = errBadCommand
@@ -188,10 +188,11 @@ func (app *App) handleAdminMessage(msg []byte) ([]byte, error) {
 				case "":
 					err = errBadCommand
 				case "all":
-					reply, err = json.Marshal(app.Hub.Rules)
+					reply, err = json.Marshal(app.Hub.GetRules())
 				default:
 					var feeds []byte // manage scope of err by avoiding :=
-					feeds, err = json.Marshal(app.Hub.Rules[cmd.Which])
+					streamFeeds, _ := app.Hub.GetRule(cmd.Which)
+					feeds, err = json.Marshal(streamFeeds)
 					reply = []byte(`{"feeds":` + string(feeds) + `}`)
 				}
 			default:
